@@ -123,8 +123,10 @@ impl<'b> InnerBucket<'b> {
 }
 
 // ---- what InnerBucket::delete_bucket needs ----
-pub trait ToBytes<'a> {
-    fn to_bytes(self) -> (r: Bytes<'a>);
+pub trait ToBytes<'a>: Sized {
+    // every implementation hands over the same bytes (bytes.rs: the impls wrap or clone; ASSUMED)
+    fn to_bytes(self) -> (r: Bytes<'a>)
+        ensures key_view(r) == key_view(self);
 }
 impl<'a> ToBytes<'a> for &Bytes<'a> {
     #[verifier::external_body]
@@ -178,12 +180,10 @@ impl From<&[u8]> for BucketMeta {
     #[verifier::external_body]
     fn from(value: &[u8]) -> (r: Self) { unimplemented!() }
 }
-impl<'b> InnerBucket<'b> {
-    #[verifier::external_body]
-    fn get_bucket<'a, T: ToBytes<'b>>(&'a mut self, name: T) -> (r: Result<Rc<RefCell<Self>>>)
-        ensures untouched(*final(self), *old(self)), !(r matches Err(Error::ReadOnlyTx)),
-            r is Ok ==> final(self).buckets.has(key_view(name)) && has_entry(old(self).tree@, key_view(name)) && entry_is_bucket(old(self).tree@, key_view(name)),
-    { unimplemented!() }
+// every open child still has its entry in this bucket's tree (ASSUMED invariant of the handle map: a child is registered
+// together with its entry, and delete_bucket removes both)
+spec fn children_have_entries(b: InnerBucket) -> bool {
+    forall|k: Seq<u8>| b.buckets.has(k) ==> has_entry(b.tree@, k) && entry_is_bucket(b.tree@, k)
 }
 // the ids of whole page runs: for every visited page p the run p, p+1, .., p+overflow(p)
 spec fn runs_ms(vis: Seq<u64>) -> Multiset<u64>
